@@ -596,14 +596,82 @@ Proof.
   destruct p; simpl in Hhold; try (destruct (Hhold eq_refl) as (Hh & Hst & Hncr); clear Hhold); auto; simpl in Hok.
   - (* Granted1 *)
     destruct (Hq1 (or_intror eq_refl)) as (Hn1 & Hn2).
-    eapply CI_enter; eauto. apply Hncr; discriminate. congruence.
+    eapply CI_enter; eauto; try (apply Hncr; discriminate); congruence.
   - (* Granted2 *)
-    eapply CI_enter; eauto. apply Hncr; discriminate. destruct c; simpl in Hc; congruence.
+    eapply CI_enter; eauto; try (apply Hncr; discriminate); destruct c; simpl in Hc; congruence.
   - (* S_G1 *) hstep s t HC.
   - (* S_G2 *) specialize (Hncr ltac:(discriminate)). hstep s t HC.
   - (* S_G3 *) specialize (Hncr ltac:(discriminate)).
     destruct c; simpl in Hc; try discriminate.
     + hstep s t HC.
-    + admit.
-  - Show.
-Abort.
+    + (* close(): queue again for the close part *)
+      pose proof HL as HL0. unfold LkS in HL0. rewrite Hh in HL0.
+      pose proof (Lk_release_forget _ _ _ HL0) as HFg.
+      destruct (lockq s) as [|t1 q] eqn:Eq.
+      * rewrite acquire_free by (rewrite ?release_holder, ?release_lockq, Eq; reflexivity).
+        set (s2 := set_pc (set_holder (release s) (Some t)) t CClose Granted2).
+        assert (HL2 : LkS s2).
+        { unfold LkS, s2. simpl. rewrite ?release_lockq, ?release_tasks, ?Eq. apply Lk_readd_take; auto. }
+        assert (HF2 : FI s2).
+        { split; unfold s2; simpl.
+          - rewrite rl_fsm, release_tasks, Eq. apply PcOk_release_put; auto.
+          - rewrite rl_fsm, rl_runt, rl_rf, rl_alive, rl_pe, rl_ra. exact HS. }
+        assert (HC2 : CI s2).
+        { unfold s2. hstep s t HC. }
+        unfold enter. eapply (CI_enter_close s2); eauto.
+        -- unfold s2. simpl. apply find_put_eq.
+        -- unfold s2. simpl. rewrite rl_fsm. exact Hncr.
+      * rewrite (acquire_busy _ _ _ _ t1) by (rewrite release_holder, Eq; reflexivity).
+        hstep s t HC.
+  - (* R_WaitStarted *) specialize (Hncr ltac:(discriminate)).
+    destruct (started_ev s); auto. hstep s t HC.
+  - (* R_G *) specialize (Hncr ltac:(discriminate)).
+    destruct c; simpl in Hc; try discriminate; hstep s t HC.
+  - (* Z_G1 *) specialize (Hncr ltac:(discriminate)).
+    destruct c; simpl in Hc; try discriminate. hstep s t HC.
+  - (* Z_G1b *) specialize (Hncr ltac:(discriminate)). unfold reset_reinit.
+    destruct (st_fsm s) eqn:Efs; try discriminate.
+    + hstep s t HC.
+    + destruct (runt s) eqn:Er; hstep s t HC.
+  - (* Z_WaitRunTask *) specialize (Hncr ltac:(discriminate)). unfold reset_reinit.
+    destruct (runt s) eqn:Er; auto. hstep s t HC.
+  - (* Z_G3 *) specialize (Hncr ltac:(discriminate)). hstep s t HC.
+  - (* Z_G4 *) specialize (Hncr ltac:(discriminate)). hstep s t HC.
+  - (* C_WaitRunFinished *) specialize (Hncr ltac:(discriminate)).
+    destruct (run_finished s) as [[|]|] eqn:Erf; auto.
+    destruct c; simpl in Hc; try discriminate.
+    eapply CI_close_trigger; eauto.
+    intros Hr. destruct (Scal_running_not_none _ _ _ _ _ _ HS Hr) as (x & _ & _ & E). congruence.
+  - (* C_WaitRunTask *) specialize (Hncr ltac:(discriminate)).
+    destruct (runt s) eqn:Er; auto. destruct c; simpl in Hc; try discriminate.
+    unfold close_enter_closed. hstep s t HC.
+  - (* C_G3 *) specialize (Hncr ltac:(discriminate)). hstep s t HC.
+  - (* C_G4 *) specialize (Hncr ltac:(discriminate)). hstep s t HC.
+  - (* P_WaitRunFinished *)
+    destruct (run_finished s) as [[|]|]; auto.
+    assert (Hnh : holder s <> Some t) by (eapply unlocked_not_holder; eauto).
+    free_tac HL HC Hnh.
+  - (* Sig_G *)
+    assert (Hnh : holder s <> Some t) by (eapply unlocked_not_holder; eauto).
+    free_tac HL HC Hnh.
+Qed.
+
+Lemma CI_notask_step s s' :
+  LkS s -> CI s ->
+  nl_started s' = nl_started s -> nl_closed s' = nl_closed s -> holder s' = holder s ->
+  lockq s' = lockq s -> tasks s' = tasks s -> incl (trace s) (trace s') ->
+  (nl_started s = false -> st_fsm s' = Created) ->
+  (st_fsm s' = Created -> st_fsm s = Created) -> (st_fsm s' = Closed -> st_fsm s = Closed) ->
+  (forall x, runt s' = Some x -> late4 x = true -> started_ev s' = true) ->
+  (forall t c, find_task (tasks s) t = Some (c, R_WaitStarted) ->
+     st_fsm s' = Running /\ rws_ok (runt s') = true) ->
+  CI s'.
+Proof.
+  intros HL HC E1 E2 E3 E4 E5 Hi Hfr Hcr Hcl Hsev Hrws.
+  constructor; rewrite ?E1, ?E2, ?E3, ?E4, ?E5; auto.
+  - intros Hst. destruct (ci_fresh _ HC Hst) as (Hf & ? & ? & ?). repeat split; auto.
+  - intros Hst Hc. apply (ci_created _ HC Hst). auto.
+  - intros Hc. apply (ci_closed _ HC). auto.
+  - intros t c p Hf. pose proof (ci_tasks _ HC _ _ _ Hf) as Hq.
+    eapply QC_change; eauto. intros -> _ _. eauto.
+Qed.
